@@ -25,6 +25,7 @@ prop(
         "its signature names the identifier (ski/aki), the derivation, the certificate kind, under which strictness and through which entry points it got through (all of them, or the list). "
         "Every third valid link of the generated chains additionally gets one random dictionary entry as its SKI or AKI (any depth, era, policy). A trust anchor with an added AKI holding a derived value is only recorded (the statement does not mention it). "
         "A case signature is (identifier, derivation, certificate kind, clock) for these, (leaf kind, depth, policy, per-family claim shape incl. overclaim kind, expected outcome), (tamper kind, certificate kind), (encoder shape: kind, policy, entry pattern, inside/outside, departures from builder output) or (key identifier, length, anchor, encoding, kind); evaluations count validations and resource comparisons."
+        "Trust anchors with 15 .. 600 blocks per family (short blocks, single elements, gaps of 1-7) make the issuance check, trimming and the encoder shapes run on long issuer chains. Wall-clock edges (four native shards, one certificate kind each): certificates whose validity ends / starts three seconds from now are validated through every entry point that reads the clock itself at eight moments from 1.5 s before to 1.6 s after the edge; a call is judged only when the harness' own clock readings before and after it lie on the same side of the edge. "
     ),
     assumptions=[
         "RSA-2048 (and P-256 public keys for router certificates) only; default key-identifier names",
@@ -35,6 +36,7 @@ prop(
         "'the hash of its key' is read as RFC 6487 4.8.2 has it: the 160-bit SHA-1 hash of the subjectPublicKey bits; the harness computes it (and every alternative derivation) itself from the SubjectPublicKeyInfo octets with aws-lc-rs, never through PublicKey::key_identifier",
         "the dictionary of alternative derivations is finite (listed in the rule): a validator that accepts an identifier computed in a way outside it is not observed by this part",
         "the entry points without _at read the machine's clock: their chain is built around it; only rejection is demanded there, a control that fails at the wall clock is recorded and the sub-workload skipped",
+        "wall-clock probes assume the system clock does not jump by more than the probe spacing during the ten seconds they take; a probe whose two readings straddle an edge gives no verdict",
     ],
     level_text=(
         "Runtime accept/reject and resource-set oracle evaluated from the parameters the harness chose (it knows which single input it made non-conforming) and an interval-set model of effective resources, "
